@@ -378,12 +378,12 @@ def real_vs_fresh(seq, variant=0):
                 fresh = R.fresh().solve(method=L[2:])
             except Exception:
                 continue
+        def close(a_, b_):
+            return a_ == b_ or (a_ != a_ and b_ != b_) or abs(a_ - b_) <= 1e-6 * max(1.0, abs(b_))      # equal, both NaN, or close
         same = live.status == fresh.status and set(live.values) == set(fresh.values) and all(
-            live.values[k2] == fresh.values[k2] or abs(live.values[k2] - fresh.values[k2]) <= 1e-6 * max(1.0, abs(fresh.values[k2]))
-            for k2 in fresh.values)
+            close(live.values[k2], fresh.values[k2]) for k2 in fresh.values)
         if same and live.objective_value is not None and fresh.objective_value is not None:
-            same = (live.objective_value == fresh.objective_value
-                    or abs(live.objective_value - fresh.objective_value) <= 1e-6 * max(1.0, abs(fresh.objective_value)))
+            same = close(live.objective_value, fresh.objective_value)
         if not same:
             return {"world": variant, "sequence": list(seq[:k + 1]), "at": L, "live": [live.status.value, live.values, live.objective_value],
                     "fresh": [fresh.status.value, fresh.values, fresh.objective_value]}
